@@ -23,7 +23,8 @@ def main():
         print("unknown property", prop)
         return 3
     spec = props.SPECS[prop]
-    workdir = os.path.join(driver.VERIF, ".work", prop)
+    # VERIF_WORK: another scratch root, so that two runs of the same check (e.g. a seed regression and a manual try) do not collide
+    workdir = os.path.join(os.environ.get("VERIF_WORK") or os.path.join(driver.VERIF, ".work"), prop)
     shutil.rmtree(workdir, ignore_errors=True)
     os.makedirs(workdir)
     t0 = time.time()
@@ -39,7 +40,23 @@ def main():
     finally:
         if not a.keep:
             shutil.rmtree(workdir, ignore_errors=True)
+        trim_build_cache()
     return code
+
+
+def trim_build_cache(limit_mb=25000):
+    """Every run compiles a freshly generated corpus module (about 0.5 GB of build cache per check): empty the Go build cache when
+    it has grown beyond limit_mb, so that repeated runs never fill the disk. The next run is then a cold build (1-2 min slower)."""
+    import subprocess
+    try:
+        cache = subprocess.run(["go", "env", "GOCACHE"], capture_output=True, text=True, timeout=30).stdout.strip()
+        if not cache or not os.path.isdir(cache):
+            return
+        mb = int(subprocess.run(["du", "-sm", cache], capture_output=True, text=True, timeout=120).stdout.split()[0])
+        if mb > limit_mb:
+            subprocess.run(["go", "clean", "-cache"], timeout=600)
+    except Exception:
+        pass
 
 
 if __name__ == "__main__":
